@@ -128,7 +128,8 @@ def mutate_scrape_extra(evs):
 
 def model_check(ctx):
     cfgs = ["HttpServer_MC_W2.cfg", "HttpServer_MC_W2noKA.cfg"] if ctx.quick() else \
-        ["HttpServer_MC_W1.cfg", "HttpServer_MC_W2.cfg", "HttpServer_MC_W3.cfg", "HttpServer_MC_W2noKA.cfg"]
+        ["HttpServer_MC_W1.cfg", "HttpServer_MC_W2.cfg", "HttpServer_MC_W3.cfg", "HttpServer_MC_W2noKA.cfg",
+         "HttpServer_MC_Live.cfg"]     # liveness under weak fairness: every accepted request is answered
     for c in cfgs:
         res = run_tlc(ctx, "HttpServer_MC", c, workers=8, timeout=1800)
         require_mc_ok(ctx, res, c)
